@@ -154,7 +154,7 @@ class LeanSide:
         out = []
         for line in p.stdout.splitlines():
             m = re.match(r"AUDIT (\S+) :: ?(.*)$", line)
-            if m and m.group(1).startswith("RV.Props."):
+            if m and m.group(1).startswith(("RV.Props.", "RV.Bridge.")):
                 out.append((m.group(1), m.group(2).split()))
         return p.returncode == 0 and "AUDIT-COUNT" in p.stdout, out, p.stdout + p.stderr
 
